@@ -257,6 +257,10 @@ class _Stmt(ast.NodeTransformer):
         self.cur.append(None)
         self.generic_visit(n)
         self.cur.pop()
+        if isinstance(n, ast.While):
+            # a loop without a loop contract runs natively: fine for a concrete condition; a SYMBOLIC condition would
+            # unroll without bound -> the contract cannot bind to this loop (the function is then undecided)
+            n.test = _call("native_while_test", ast.Constant(getattr(n, "_vc_k", -1)), n.test)
         return n
 
     def _carried_assign(self, k, spec):
